@@ -35,6 +35,7 @@ type AtSpec struct {
 	Ord    int    // ordinal among matching call sites (source order), -1 = all
 	Clause *Clause
 	Ghost  *GhostAssign // `at send CH: ghost x = e`: ghost update performed right after the send
+	Assume bool         // `at call F: assume e`: e is assumed (and listed as an assumption) before F's pre-conditions are checked
 }
 
 type FuncSpec struct {
@@ -60,6 +61,7 @@ type FuncSpec struct {
 	Line      int
 	Notes     []string
 	AllocBound *Clause
+	NeverClosed []*Clause // channels on which a receive returns only with a value (no close in the package)
 	Lemmas    []*Clause
 	Ensures2  []*Clause // relational (two-run) postconditions; names with suffix _2 denote the second run
 	Elems     []*ElemSpec // per-element facts of a returned channel (instantiated at each receive)
@@ -463,6 +465,12 @@ func (fs *FuncSpec) addClause(t, file string, ln int) error {
 			return err
 		}
 		fs.Elems = append(fs.Elems, &ElemSpec{Chan: ce, Var: w[1], Clause: c})
+	case "never_closed":
+		c, err := mk(kind, rest)
+		if err != nil {
+			return err
+		}
+		fs.NeverClosed = append(fs.NeverClosed, c)
 	case "allocbound":
 		c, err := mk(kind, rest)
 		if err != nil {
@@ -650,6 +658,15 @@ func (fs *FuncSpec) addClause(t, file string, ln int) error {
 				return err
 			}
 			fs.Ats = append(fs.Ats, &AtSpec{Callee: point, Ord: ord, Clause: c})
+		case "assume":
+			if isSend || isMapUpd {
+				return fmt.Errorf("at ...: assume is supported at call sites only")
+			}
+			c, err := mk("assume", b)
+			if err != nil {
+				return err
+			}
+			fs.Ats = append(fs.Ats, &AtSpec{Callee: point, Ord: ord, Clause: c, Assume: true})
 		case "ghost":
 			// supported at send, map-update and call sites
 			k := strings.Index(b, "=")
